@@ -374,10 +374,17 @@ StringDictionaryHHTFC::StringDictionaryHHTFC(IteratorDictString *it,
 
     delete[] tmp;
 
-    // Adding the ending decodeable string of a last bucket which is not full
-    if (textSubstr.size() > 0)
-      builderHU->insertEndingSubstr(&codeSubstr, &ptrSubstr, &textSubstr,
-                                    &lenSubstr);
+    // Adding the ending decodeable string of a last bucket which is not full:
+    // it belongs to the header (a single string in the bucket) or to the
+    // last internal string
+    if (textSubstr.size() > 0) {
+      if (((elements - 1) % bucketsize) == 0)
+        builderHT->insertEndingSubstr(&codeSubstr, &ptrSubstr, &textSubstr,
+                                      &lenSubstr);
+      else
+        builderHU->insertEndingSubstr(&codeSubstr, &ptrSubstr, &textSubstr,
+                                      &lenSubstr);
+    }
 
     bytesStrings++;
     xblStrings.push_back(bytesStrings);
